@@ -25,7 +25,7 @@ def opsRuleTables (op : String) (a : Args) : Option String :=
   | "rrt" => some <|
     match argNat a "k", argNat a "r", argNat a "q", flag a "sq", flag a "iso", argVec a "oracle" with
     | some k, some r, some q, some sq, some iso, some orc =>
-      if k < 2 || k > 10 then "out-of-model" else
+      if k < 2 || k > 36 then "out-of-model" else
       let oracle : RrtOracle := fun i => match orc[i]? with
         | some x => if x < 0 then none else some x.toNat
         | none => none
@@ -37,7 +37,7 @@ def opsRuleTables (op : String) (a : Args) : Option String :=
     match (arg a "table").bind parseRTable, argNat a "num", argNat a "den", argNat a "k", argNat a "r",
         argNat a "q", flag a "sq", flag a "iso", argMat a "oracle" with
     | some t, some num, some den, some k, some r, some q, some sq, some iso, some orc =>
-      if k < 2 || k > 10 || den = 0 then "out-of-model" else
+      if k < 2 || k > 36 || den = 0 then "out-of-model" else
       let oracle : WalkOracle := fun i => match orc[i]? with
         | some [x, y] => (x.toNat, y.toNat)
         | _ => (0, 0)
